@@ -1,4 +1,5 @@
 """Container-file histories: generation and the checks shared by C05, C06, C15, C16, C17."""
+import zlib, bz2, lzma
 import common as C
 import gen as G
 import codec
@@ -17,17 +18,33 @@ class History:
     """one schema, a list of values, an op sequence"""
     def __init__(self, rng, n_values=None, big=False, schema_kw=None):
         self.rng = rng
-        nodes, v0 = G.schema_and_value(rng, **(schema_kw or {"max_nodes": rng.choice([1, 3, 6]), "max_depth": 3}))
+        kw = schema_kw or {"max_nodes": rng.choice([1, 3, 6]), "max_depth": 3}
+        nodes, v0 = G.schema_and_value(rng, **kw)
+        if big:
+            # big: values carry long byte strings / strings -- the schema must have a place for them
+            for _ in range(40):
+                if any(nd.kind() in ("bytes", "string") for nd in nodes):
+                    break
+                nodes, v0 = G.schema_and_value(rng, **kw)
         self.nodes = nodes
-        vg = G.ValueGen(rng, nodes, layouts=False)
-        n = n_values if n_values is not None else rng.choice([0, 1, 2, 3, 5, 8])
-        vals = [v0] + [vg.gen(0) for _ in range(max(0, n - 1))]
+        vg = G.ValueGen(rng, nodes, layouts=False, big=big)
+        n = n_values if n_values is not None else (rng.choice([0, 1, 2, 3, 5, 8]) if not big else rng.choice([2, 3, 5, 8]))
+        vals = ([v0] if not big else []) + [vg.gen(0) for _ in range(max(0, n - (0 if big else 1)))]
         self.values = [v for v in vals if v is not None][:n] if n > 0 else []
         self.schema = G.schema_sx(nodes)
 
     def prepare(self):
         """asks the spec for encodings / expected events / canonical presentations"""
         self.spec = codec.spec_batch([(self.nodes, v) for v in self.values]) if self.values else []
+
+def prepare_all(hs):
+    """History.prepare for many histories in one (parallel) batch of the specification oracle"""
+    pairs = [(h.nodes, v) for h in hs for v in h.values]
+    res = codec.spec_batch(pairs) if pairs else []
+    i = 0
+    for h in hs:
+        h.spec = res[i:i + len(h.values)]
+        i += len(h.values)
 
 def damaged(rng, sv):
     """a presentation damaged at a random leaf (Serialize impl failure or type mismatch): the value fails, possibly after
@@ -153,3 +170,248 @@ def values_prefix_then_eof(items, expected_texts, must_be_all):
     if must_be_all and k != len(expected_texts):
         return False, k, "only %d of %d values present after a flush point" % (k, len(expected_texts))
     return True, k, ""
+
+# ---------------------------------------------------------------- hook H3: the encode loops' starting buffer length
+# the crate starts the output buffer of the deflate / bzip2 / xz loops at 32 KiB and doubles it; with hook H3 the start is
+# chosen by the run, so that small blocks already take the loops through several growth steps
+H3_STARTS = [1, 2, 64, 1024, 4096, 32768]
+LOOP_FAMILIES = ("deflate", "bzip2", "xz")
+
+def with_start(start, cwline):
+    """`cw ...` -> `cwh START ...` (harness only; the writer model does not depend on START)"""
+    assert cwline.startswith("cw ")
+    return cwline if start is None else "cwh %d %s" % (start, cwline[3:])
+
+def raw_model_line(cwline_with_json):
+    """`cw xJSON ...` -> `cwraw xJSON ...`: Container.v's writer with the identity as block compressor, for any codec"""
+    assert cwline_with_json.startswith("cw ")
+    return "cwraw " + cwline_with_json[3:]
+
+WORDS = [b"avro", b"block", b"codec", b"deflate", b"stream", b"buffer", b"schema", b"record", b"union", b"fixed",
+         b"sync", b"marker", b"header", b"long", b"bytes", b"string", b"map", b"array", b"enum", b"null"]
+
+def payload(rng, kind, n):
+    """n bytes: incompressible ('rand'), one repeated byte ('zero'), words with noise ('text', ratio ~3)"""
+    if n <= 0:
+        return b""
+    if kind == "rand":
+        return rng.randbytes(n)
+    if kind == "zero":
+        return bytes([rng.randrange(3)]) * n
+    out = bytearray()
+    while len(out) < n:
+        out += rng.choice(WORDS) + (b" " if rng.random() < 0.8 else bytes([0x21 + rng.randrange(90)]))
+    return bytes(out[:n])
+
+BIG_SHAPES = ["bytes", "record", "string", "fixed", "doubles", "many"]
+
+def big_sizes(rng, start):
+    """payload sizes around the growth steps of a buffer starting at `start`, and past the point (~64 KB of incompressible
+    input) where the deflate library stops taking input in before its output has been drained"""
+    around = [start - 1, start, start + 1, 2 * start - 1, 2 * start + 1, 4 * start + 3, 8 * start + 5, 16 * start + 1, 40 * start]
+    around = [n for n in around if 1 <= n <= 140000]
+    far = [33000, 40000, 60000, 66000, 70000, 100000, 131073, 200000]
+    return around, far
+
+class BigHistory(History):
+    """values whose encodings make a block's compressed form outgrow the encode loops' output buffer several times:
+    shapes: one `bytes` / `string` / `fixed` / record {id: long, payload: bytes} / array of random doubles per value, or
+    many 1000-byte values gathered into big blocks; contents incompressible (mostly), text-like or constant"""
+    def __init__(self, rng, start, shape, content=None, want_far=False):
+        self.rng = rng
+        self.start = start
+        self.shape = shape
+        around, far = big_sizes(rng, start)
+        content = content or rng.choice(["rand", "rand", "rand", "text", "zero"])
+        self.content = content
+        scale = {"rand": 1, "text": 3, "zero": 1}[content]
+        self.want_far = want_far
+        first = [True]
+        budget = [300000]
+        def size():
+            if want_far and first[0]:
+                # at least one value past the point where the deflate library stops taking input in
+                first[0] = False
+                n = rng.choice([66000, 70000, 100000, 131073, 200000])
+            else:
+                n = rng.choice(far) if rng.random() < 0.15 else rng.choice(around)
+            # one history stays below ~300 KB of payload (the extracted model and parser recurse along the bytes)
+            n = max(1, min(n * scale, 220000, budget[0]))
+            budget[0] = max(1, budget[0] - n)
+            return n
+        nvals = rng.choice([1, 2, 3])
+        if shape == "bytes":
+            self.nodes = [G.Node("bytes")]
+            self.values = ["(bytes %s)" % C.hx(payload(rng, content, size())) for _ in range(nvals)]
+        elif shape == "string":
+            # text: every byte below 0x80, so any payload is valid UTF-8; the 'rand' content is random 7-bit text
+            self.nodes = [G.Node("string")]
+            def txt(n):
+                b = payload(rng, content, n)
+                return bytes(x & 0x7f for x in b)
+            self.values = ["(string %s)" % C.hx(txt(size())) for _ in range(nvals)]
+        elif shape == "fixed":
+            n = size()
+            nvals = max(1, min(nvals, 300000 // n))
+            self.nodes = [G.Node("fixed", name="F", size=n)]
+            self.values = ["(fixed %s)" % C.hx(payload(rng, content, n)) for _ in range(nvals)]
+        elif shape == "record":
+            self.nodes = [G.Node("record", name="R", fields=[("id", 1), ("payload", 2)]), G.Node("long"), G.Node("bytes")]
+            self.values = ["(record (long %d) (bytes %s))" % (i, C.hx(payload(rng, content, size()))) for i in range(nvals)]
+        elif shape == "doubles":
+            self.nodes = [G.Node("array", items=1), G.Node("double")]
+            def arr(n):
+                k = max(1, min(n, 16000) // 8)      # the model's array serializer is slow on long arrays
+                if content == "rand":
+                    its = ["(double %d)" % G.f64_bits(rng) for _ in range(k)]
+                else:
+                    x = G.f64_bits(rng)
+                    its = ["(double %d)" % x] * k
+                return "(array (blk 0 %s))" % " ".join(its)
+            self.values = [arr(size()) for _ in range(rng.choice([1, 2]))]
+        elif shape == "many":
+            # the demo shape of real use: many medium values, the block is what gets big
+            self.nodes = [G.Node("record", name="R", fields=[("id", 1), ("payload", 2)]), G.Node("long"), G.Node("bytes")]
+            per = rng.choice([100, 1000, 3000])
+            total = size() if not want_far else rng.choice([70000, 100000, 140000])
+            k = max(2, min(150, total // per))
+            self.values = ["(record (long %d) (bytes %s))" % (i, C.hx(payload(rng, content, per))) for i in range(k)]
+        else:
+            raise ValueError(shape)
+        self.schema = G.schema_sx(self.nodes)
+
+def big_block_size(rng, h):
+    if h.shape == "many":
+        return rng.choice([65536, 100000, 1 << 20]) if h.want_far else rng.choice([4096, 40000, 65536, 65536, 100000, 1 << 20])
+    return rng.choice([0, 64, 4096, 65536, 65536, 1 << 20])
+
+def big_plan(rng, tier, codecs=None):
+    """directed enumeration for the encode loops: every codec setting x every starting length of the output buffer
+    (hook H3; only 32768 and one small one for the codecs without a loop) x rotating value shapes; for every loop codec
+    setting and START alternately blocks of more than 64 KB of incompressible data. -> [(codec, start, shape, content, far)]"""
+    plan = []
+    reps = 1 if tier == "quick" else 6
+    k = rng.randrange(100)
+    for rep in range(reps):
+        for ci, c in enumerate(codecs or CODECS):
+            fam = codec_family(c)
+            starts = H3_STARTS if fam in LOOP_FAMILIES else [32768, rng.choice([1, 64])]
+            for si, start in enumerate(starts):
+                k += 1
+                shapes = [sh for sh in BIG_SHAPES if not (sh == "doubles" and start > 4096)]
+                shape = shapes[k % len(shapes)]
+                far = (k + ci) % 2 == 0 or (start == 32768 and fam in LOOP_FAMILIES)
+                if shape == "doubles":
+                    far = False
+                content = "rand" if far or (k % 5) else rng.choice(["text", "zero"])
+                plan.append((c, start, shape, content, far))
+    return plan
+
+def growth_steps(start, size):
+    """how many times a buffer starting at `start` must have doubled to hold `size` bytes"""
+    k = 0
+    while start < size:
+        start *= 2
+        k += 1
+    return k
+
+# ---------------------------------------------------------------- independent decoding of block data
+def py_block_decode(fam, data):
+    """Python's zlib / bz2 / lzma (independent of the Rust crates): the data must be exactly ONE complete stream --
+    a stream cut short, or bytes behind its end, is an error"""
+    if fam == "null":
+        return data
+    if fam == "deflate":
+        d = zlib.decompressobj(-15)
+    elif fam == "bzip2":
+        d = bz2.BZ2Decompressor()
+    elif fam == "xz":
+        d = lzma.LZMADecompressor(format=lzma.FORMAT_XZ)
+    else:
+        raise KeyError(fam)
+    out = d.decompress(data)
+    if not d.eof:
+        raise ValueError("the %s stream is not complete (cut short after %d decoded bytes)" % (fam, len(out)))
+    if d.unused_data:
+        raise ValueError("%d bytes behind the end of the %s stream" % (len(d.unused_data), fam))
+    return out
+
+class BlockDecoder:
+    """payloads of block data by decoders other than the crate's reader: Python's zlib/bz2/lzma for deflate/bzip2/xz; for
+    snappy and zstandard (no decoder in Python's standard library) the harness command `blockdec`: snap's raw decoder
+    (+ the 4-byte trailer checked here: big-endian zlib.crc32 of the payload) and zstd's decode_all"""
+    def __init__(self):
+        self.cache = {}
+        self.todo = {"snappy": [], "zstandard": []}
+    def want(self, fam, data):
+        key = (fam, data)
+        if key in self.cache:
+            return
+        if fam in self.todo:
+            self.cache[key] = None
+            self.todo[fam].append(data)
+        else:
+            try:
+                self.cache[key] = (py_block_decode(fam, data), "")
+            except Exception as e:
+                self.cache[key] = (None, str(e)[:200])
+    def flush(self):
+        for fam, datas in self.todo.items():
+            if not datas:
+                continue
+            lines, groups = [], []
+            cur, size = [], 0
+            for d in datas:
+                cur.append(d)
+                size += len(d)
+                if size > 400000 or len(cur) >= 50:
+                    groups.append(cur); cur, size = [], 0
+            if cur:
+                groups.append(cur)
+            lines = ["blockdec %s %s" % (fam, " ".join(C.hx(d) for d in g)) for g in groups]
+            for g, res in zip(groups, C.run_parallel(C.AVRODRIVE, lines)):
+                p = C.parse_sx(res)
+                items = p[0][1:] if p and isinstance(p[0], list) and p[0][0] == "ok" else []
+                for i, d in enumerate(g):
+                    it = items[i] if i < len(items) else "bad"
+                    if it == "bad" or not isinstance(it, list):
+                        self.cache[(fam, d)] = (None, "the %s library's decoder rejects the block data" % fam)
+                        continue
+                    pl = C.unhex(it[1])
+                    if fam == "snappy":
+                        want = (zlib.crc32(pl) & 0xffffffff).to_bytes(4, "big")
+                        if d[-4:] != want:
+                            self.cache[(fam, d)] = (None, "snappy block does not end with the big-endian CRC32 of its payload (%s, expected %s)" % (d[-4:].hex(), want.hex()))
+                            continue
+                    self.cache[(fam, d)] = (pl, "")
+            self.todo[fam] = []
+    def get(self, fam, data):
+        r = self.cache.get((fam, data))
+        if r is None:
+            self.flush()
+            r = self.cache.get((fam, data))
+        return r
+
+def parse_fileparse(res):
+    """result of the extracted reference parser -> None | dict(meta=[(k, v)], sync, blocks=[(count, data)])"""
+    p = C.parse_sx(res)
+    if p and isinstance(p[0], list) and p[0] and p[0][0] == "invalid":
+        return None
+    if not p or not isinstance(p[0], list) or p[0][0] != "ok":
+        raise RuntimeError("the reference parser did not run (not a verdict): %s" % res[:100])
+    p = p[0]
+    return {"meta": [(C.unhex(kv[0]), C.unhex(kv[1])) for kv in p[1][1:]], "sync": C.unhex(p[2]),
+            "blocks": [(int(bk[1]), C.unhex(bk[2])) for bk in p[3:]]}
+
+def raw_view(header, sync, blocks):
+    """the file with every block's data replaced by its payload (what Container.v's writer gives with the identity as
+    block compressor): header ++ per block varint(count) varint(|payload|) payload sync"""
+    out = bytearray(header)
+    for cnt, pl in blocks:
+        out += G.varint(cnt) + G.varint(len(pl)) + pl + sync
+    return bytes(out)
+
+def run_model(lines):
+    """the extracted model / reference parser on long inputs: run with a large stack (they recurse along the bytes)"""
+    import codecloop
+    return codecloop.run_model(lines, jobs=16)
